@@ -12610,6 +12610,11 @@ tsk_table_collection_delete_older(
     memset(&mutations, 0, sizeof(mutations));
     memset(&migrations, 0, sizeof(migrations));
 
+    /* Node and mutation references are followed below, so they must be in range */
+    ret = (int) tsk_table_collection_check_integrity(self, 0);
+    if (ret != 0) {
+        goto out;
+    }
     ret = tsk_edge_table_copy(&self->edges, &edges, 0);
     if (ret != 0) {
         goto out;
